@@ -183,7 +183,9 @@ func (e *Engine) registerIntrinsics() {
 					res = append(res, Outcome{St: o.St, Ret: term.False})
 				}
 			}
-			return e.mergeOutcomes(res)
+			// failure and success are kept as separate paths: a harness that goes on to assume one of
+			// them then works with concrete lengths and counters
+			return res
 		})
 		reg(vpk+".Choose", func(e *Engine, st *State, args []Value, depth int) []Outcome {
 			name := strArg(args[0])
